@@ -284,6 +284,99 @@ def run_prior(kind, handled):
         pass
 
 
+NO_HAND = -5  # DiagGlue.tla NoHand
+
+
+class HErr(Exception):
+    pass
+
+
+def _level_template():
+    """Body of one task level.  Its free names (I, D, R, MODE, SYNC, STYLE, HAND, HEND, fns, box, probe, await_,
+    unwrap) come from a per-level namespace: the function is instantiated from THIS source text by instantiate(),
+    either bound to this file (source retrievable) or as generated code (no source)."""
+    if I == HAND:
+        # creates the next level's task, hands it over to its own awaiter and completes
+        probe(I, "entry")
+        box[I + 1] = fns[I + 1].asynq()
+        if SYNC:
+            yield DebugBatchItem("c18-glue")
+        if HEND == "fail":
+            raise HErr(I)
+        return -2
+    if I < D:
+        probe(I, "entry")
+        child = fns[I + 1].asynq()
+        if I + 1 == HAND:
+            # the child hands its own child over and completes (or fails: caught here); that one is awaited instead
+            try:
+                yield child
+            except HErr:
+                pass
+            child = box[I + 2]
+        m = MODE[I - 1] if I < R else "pass"
+        if m == "pass":
+            v = unwrap((yield await_(child)))
+        else:
+            try:
+                v = unwrap((yield await_(child)))
+            except Exception:
+                probe(I, "handler")
+                if m == "reraise":
+                    raise
+                if m == "new":
+                    raise NErr(I)
+                v = -1
+    else:
+        if SYNC:
+            yield DebugBatchItem("c18-glue")
+        probe(I, "entry")
+        v = 0
+    if I == R:
+        if STYLE == "helper":
+            helper_raise(I)
+        raise VErr(I)
+    return v
+
+
+def _outer_template():
+    """Body of the outer task (level 0); free names probe, retr, fns, retrieve from the namespace."""
+    probe(0, "entry")
+    if retr == ["call"]:
+        if False:
+            yield None
+        return fns[1]()
+    child = fns[1].asynq()
+    for k, how in enumerate(retr[:-1], 1):
+        retrieve(k, how, child)
+    if retr[-1] == "yield":
+        return (yield child)
+    return child.value()
+
+
+_SRC = {}
+
+
+def instantiate(template, name, ns, generated):
+    """A new function object from the template's source text with `ns` as its globals.  generated=False: compiled
+    at the template's own file and line numbers, so its frames show source lines; generated=True: compiled from
+    the bare string with a made-up file name - like exec()-generated code, a REPL cell or python -c, no source
+    text can be retrieved for its frames."""
+    if template not in _SRC:
+        import inspect
+        lines, start = inspect.getsourcelines(template)
+        _SRC[template] = ("".join(lines), start, inspect.getsourcefile(template))
+    src, start, fname = _SRC[template]
+    if generated:
+        code = compile(src, "<c18 generated %s>" % name, "exec")
+    else:
+        code = compile("\n" * (start - 1) + src, fname, "exec")
+    g = dict(globals())
+    g.update(ns)
+    exec(code, g)
+    return _rename(g[template.__name__], name)
+
+
 def run_glue(case):
     asynq.scheduler.reset()
     if case.get("prior", "none") != "none":
@@ -307,6 +400,8 @@ def run_glue(case):
                 for entry in st:
                     m = _LVL.search(entry)
                     got.append(int(m.group(1)) if m else "?" + entry[:60])
+            asynq.debug.dump_asynq_stack()
+            asynq.scheduler.get_active_task().dump()
         except BaseException as e:  # noqa
             got = ["raised", type(e).__name__]
         probes.append({"lvl": i, "at": where, "stack": got})
@@ -317,36 +412,15 @@ def run_glue(case):
     def unwrap(v):
         return v[0] if style == "list" else v
 
-    def make(i):
-        def body():
-            if i < d:
-                probe(i, "entry")
-                child = fns[i + 1].asynq()
-                m = mode[i - 1] if i < r else "pass"
-                if m == "pass":
-                    v = unwrap((yield await_(child)))
-                else:
-                    try:
-                        v = unwrap((yield await_(child)))
-                    except Exception:
-                        probe(i, "handler")
-                        if m == "reraise":
-                            raise
-                        if m == "new":
-                            raise NErr(i)
-                        v = -1
-            else:
-                if sync:
-                    yield DebugBatchItem("c18-glue")
-                probe(i, "entry")
-                v = 0
-            if i == r:
-                if style == "helper":
-                    helper_raise(i)
-                raise VErr(i)
-            return v
+    nosrc = set(case.get("nosrc", []))
+    hand = case.get("hand", NO_HAND)
+    hend = case.get("hend", "-")
+    box = {}
 
-        return A()(_rename(body, "lvl_%d" % i))
+    def make(i):
+        ns = {"I": i, "D": d, "R": r, "MODE": mode, "SYNC": sync, "STYLE": style, "HAND": hand, "HEND": hend,
+              "fns": fns, "box": box, "probe": probe, "await_": await_, "unwrap": unwrap}
+        return A()(instantiate(_level_template, "lvl_%d" % i, ns, i in nosrc))
 
     retr = case.get("retr", ["call"])
     sights = []
@@ -370,19 +444,6 @@ def run_glue(case):
             tb = [] if e is None else project_format_error(e)
         sights.append({"k": k, "kind": how, "tb": tb})
 
-    def lvl_0():
-        probe(0, "entry")
-        if retr == ["call"]:
-            if False:
-                yield None
-            return fns[1]()
-        child = fns[1].asynq()
-        for k, how in enumerate(retr[:-1], 1):
-            retrieve(k, how, child)
-        if retr[-1] == "yield":
-            return (yield child)
-        return child.value()
-
     for i in range(1, d + 1):
         fns[i] = make(i)
     got = {}
@@ -398,7 +459,18 @@ def run_glue(case):
             got["outcome"] = ["err", "E" if isinstance(e, VErr) else "N", e.args[0] if e.args else -99, project_format_error(e)]
         got["debug_extract_tb"] = got["format_error"] = got["outcome"][3] if e is not None else None
     else:
-        top = A()(lvl_0) if outer else fns[1]
+        if outer:
+            top = A()(instantiate(_outer_template, "lvl_0", {"probe": probe, "retr": retr, "fns": fns, "retrieve": retrieve},
+                                  0 in nosrc))
+        elif hand == 1:
+            def top():  # level 1 hands the task of level 2 to the top-level caller, which awaits it
+                try:
+                    fns[1]()
+                except HErr:
+                    pass
+                return box[2].value()
+        else:
+            top = fns[1]
         try:
             top()
             got["outcome"] = ["val"]
